@@ -26,6 +26,7 @@ GenInitZones == {ZApex, ZA, ZC, ZW}
 GenInitSmall == {ZA, ZC}
 GenInitMid == {ZA, ZC, ZW}
 GenInitEmpty == {<<>>}
+GenInitC == {ZC}
 GenSerials == {<<0, 1>>, <<32768, 0>>}
 GenSerialArgs == {[neg |-> FALSE, value |-> <<0, 1>>, relative |-> TRUE],
                   [neg |-> FALSE, value |-> <<32767, 65535>>, relative |-> TRUE],
